@@ -26,6 +26,8 @@ def catalogue(tier):
     add("kkt_zero22", [[2.0, 0.5, 1.0], [0.5, 1.0, -1.0], [1.0, -1.0, 0.0]], "sym")
     add("kkt_wide", [[203.25, 0.0, -1.5], [0.0, 1.0, -1.0], [-1.5, -1.0, -0.5]], "sym")  # reduced system seen in a real step
     add("kkt_lam", [[101.0, -1.0, 1.0], [-1.0, 104.0, 2.0], [1.0, 2.0, -50.0]], "sym")
+    add("kkt_tiny_diag", [[1e-12, 1.0, 0.5], [1.0, 1e-13, -1.0], [0.5, -1.0, -1e-11]], "sym")   # well conditioned, needs pivoting
+    add("kkt_tiny_diag4", [[1e-10, 2.0, 0.0, 1.0], [2.0, 1e-14, 1.0, 0.0], [0.0, 1.0, -1e-12, 3.0], [1.0, 0.0, 3.0, 1e-13]], "sym")
     add("spd3", [[4.0, 1.0, 0.5], [1.0, 3.0, -1.0], [0.5, -1.0, 2.0]], "sym")
     add("negdef2", [[-2.0, 0.5], [0.5, -1.0]], "sym")
     add("diag4", np.diag([1.0, -2.0, 0.5, 8.0]), "sym")
@@ -41,6 +43,12 @@ def catalogue(tier):
         add("spd_ill", [[1000.0, 1.0], [1.0, 0.5]], "sym")
         add("unsym_ill", [[1.0, 100.0], [0.0, 1.0]], "unsym")
         add("rot", [[0.0, -1.0], [1.0, 0.0]], "unsym")
+    # larger systems (n=60): Krylov methods need many iterations, so a far initial guess matters
+    nb = 60
+    T = np.diag(np.linspace(1.0, 8.0, nb)) + np.diag(np.full(nb - 1, -0.45), 1) + np.diag(np.full(nb - 1, -0.45), -1)
+    add("spd_band60", T, "sym")
+    U = T + np.diag(np.full(nb - 2, 0.3), 2)
+    add("unsym_band60", U, "unsym")
     # singular
     add("zero_row", [[1.0, 2.0, 0.0], [0.0, 0.0, 0.0], [3.0, 0.0, 1.0]], "struct_sing")
     add("zero_col", [[1.0, 0.0, 2.0], [3.0, 0.0, 1.0], [0.0, 0.0, 4.0]], "struct_sing")
@@ -64,9 +72,12 @@ def cases(tier, seed):
 def rhs_list(n, M):
     out = [("e%d" % i, np.eye(n)[i]) for i in range(n)]
     out.append(("ones", np.ones(n)))
-    out.append(("mixed", np.array([1.0, -2.0, 0.5, 3.0, -0.25][:n])))
-    out.append(("large", 1e5 * np.array([1.0, -1e-5, 0.005, 1.0, 0.1][:n])))
-    out.append(("range", M.dot(np.array([1.0, 2.0, -1.0, 0.5, 3.0][:n]))))
+    pat = np.resize(np.array([1.0, -2.0, 0.5, 3.0, -0.25]), n)
+    out.append(("mixed", pat))
+    out.append(("large", 1e5 * np.resize(np.array([1.0, -1e-5, 0.005, 1.0, 0.1]), n)))
+    out.append(("range", M.dot(np.resize(np.array([1.0, 2.0, -1.0, 0.5, 3.0]), n))))
+    if n > 8:
+        out = [o for o in out if not o[0].startswith("e")] + [("e0", np.eye(n)[0]), ("e_mid", np.eye(n)[n // 2])]
     return out
 
 
@@ -114,7 +125,8 @@ def run_case(case):
                     exact = np.linalg.solve(A, b)
                 guesses = [("none", None), ("zero", np.zeros(n))]
                 if exact is not None:
-                    guesses += [("exact", exact), ("perturbed", exact + 1e-3 * np.array([1.0, -1.0, 2.0, -2.0, 1.0][:n])),
+                    guesses += [("exact", exact), ("perturbed", exact + 1e-3 * np.resize(np.array([1.0, -1.0, 2.0, -2.0, 1.0]), n)),
+                                ("far", exact + 100.0 * max(1.0, float(np.linalg.norm(exact))) * np.resize(np.array([1.0, -1.0, 0.5]), n)),
                                 # a warm start that solves the system with the *other* orientation of the matrix
                                 ("other_orientation", np.linalg.solve(A.T, b))]
                 for gname, g in guesses:
